@@ -10,6 +10,9 @@ VOCAB = [
     'T154-R97', 'T154N', 'R97W', '97W', 'Twp. 8 N., Rge. 3 W.', 'T-5-N-R-6-E',
     't12nr3w', 'T2N-R2W', 'Township', 'Range', 'Twp', 'Rge.', 'T', 'R',
     'T154N-R97', 'T154-R97W', '154-97', 'TIS4N-R97W', 'T1O N-R9 W',
+    # OCR artefacts in number position, translatable or not
+    'T15|N-R97W', 'T15oN-R97W', 'TlS4N-RIOOW', 'T1]4N-R9iW',
+    'Township 15o North, Range 9I West', 'T|5|N-R||W', 'TSSN-ROOW',
     # sections
     'Sec', 'Section', 'Sec.', 'Sect', '§', 'Sec 14', 'Sec 14:', 'Sec 1 - 3',
     'Sec 1 - 3:', 'Section 100', 'Sec 5:', 'Secs 4 and 9', 'Sections 7, 8 & 10:',
